@@ -36,6 +36,7 @@ import (
 	eth2p0 "github.com/attestantio/go-eth2-client/spec/phase0"
 	k1 "github.com/decred/dcrd/dcrec/secp256k1/v4"
 
+	"github.com/obolnetwork/charon/app/eth1wrap"
 	"github.com/obolnetwork/charon/app/k1util"
 	"github.com/obolnetwork/charon/eth2util"
 	"github.com/obolnetwork/charon/eth2util/deposit"
@@ -104,6 +105,7 @@ type c12bFixID struct {
 	Shape   [3]int `json:"shape"`   // validators, threshold, nodes
 	Network string `json:"network"`
 	Example string `json:"example,omitempty"` // variant "example": a file of /repo/cluster/examples (written by older charon releases)
+	Sizes   string `json:"sizes,omitempty"`   // name of a sizes spec (zz_verif_c12sizes_test.go): boundary lengths / element counts, Safe signature lists
 }
 
 func (f c12bFixID) tag() string {
@@ -113,6 +115,9 @@ func (f c12bFixID) tag() string {
 	}
 	if f.Variant != "signed" {
 		s += "+" + f.Variant
+	}
+	if f.Sizes != "" {
+		s += "+sz:" + f.Sizes
 	}
 	if f.Shape != [3]int{2, 3, 4} {
 		s += fmt.Sprintf("+%dof%dx%d", f.Shape[1], f.Shape[2], f.Shape[0])
@@ -199,6 +204,9 @@ func c12bBuild(t *testing.T, id c12bFixID) (*c12bFix, error) {
 		}
 		return f, nil
 	}
+	if id.Sizes != "" {
+		return c12szBuild(t, id)
+	}
 	version := id.Version
 	dv, k, n := id.Shape[0], id.Shape[1], id.Shape[2]
 	const seed = 12
@@ -238,12 +246,18 @@ func c12bBuild(t *testing.T, id c12bFixID) (*c12bFix, error) {
 		}
 		def.Operators = ops
 		def.Creator = Creator{}
-		// addresses with a zero byte at either end (nothing signs the unsigned variant's config, so they can be set here)
-		for i := range def.ValidatorAddresses {
-			def.ValidatorAddresses[i] = ValidatorAddresses{
-				FeeRecipientAddress: fmt.Sprintf("0x00fdfc072182654f163f5f0f9a621d729566%02x00", i+1),
-				WithdrawalAddress:   fmt.Sprintf("0x00037c4d7bbb0407d1e2c64981855ad8681d%02x00", i+1),
+		// addresses with a zero byte at either end (nothing signs the unsigned variant's config, so they can be set here; the
+		// builder registrations are re-signed for them below). Versions before v1.5 carry ONE address pair for all validators,
+		// which WithLegacyVAddrs above already set to zero-edged values.
+		if !isAnyVersion(version, v1_0, v1_1, v1_2, v1_3, v1_4) {
+			va := make([]ValidatorAddresses, len(def.ValidatorAddresses))
+			for i := range va {
+				va[i] = ValidatorAddresses{
+					FeeRecipientAddress: fmt.Sprintf("0x00fdfc072182654f163f5f0f9a621d729566%02x00", i+1),
+					WithdrawalAddress:   fmt.Sprintf("0x00037c4d7bbb0407d1e2c64981855ad8681d%02x00", i+1),
+				}
 			}
+			def.ValidatorAddresses = va
 		}
 	}
 	if isAnyVersion(version, v1_0, v1_1, v1_2, v1_3) {
@@ -282,6 +296,9 @@ func c12bBuild(t *testing.T, id c12bFixID) (*c12bFix, error) {
 		}
 		if !SupportPregenRegistrations(version) {
 			vals[v].BuilderRegistration = BuilderRegistration{}
+		} else if id.Variant == "unsigned" {
+			// the registration signs the fee recipient, which the unsigned variant replaced
+			vals[v].BuilderRegistration = getSignedRegistration(t, root, def.ValidatorAddresses[v].FeeRecipientAddress, id.Network)
 		}
 	}
 	lock.Validators = vals
@@ -543,6 +560,9 @@ func c12mutLeaf(node any, kind string) (nn any, remove, ok bool) {
 				b = append(append([]byte(nil), b...), 0)
 			}
 			return enc(b), false, true
+		case strings.Contains(kind, "@"):
+			s, ok := c12szAlter(x, kind) // byte@i, chr@i, el-drop@j, el-dup@j, el-swap@j (zz_verif_c12sizes_test.go)
+			return s, false, ok
 		case kind == "set0x":
 			return "0x01", false, true
 		case kind == "setb64":
@@ -694,10 +714,19 @@ func c12canon(v any) string {
 // ---- the real loading path ----------------------------------------------------------------------------------
 
 type c12res struct {
-	Stage  string // decode | same | hash | sig | panic | accepted
-	Detail string
-	SigToo bool // the signature check failed as well (only meaningful for Stage hash)
+	Stage      string // decode | same | hash | sig | panic | accepted
+	Detail     string
+	SigToo     bool // the signature check failed as well (only meaningful for Stage hash)
+	SigSkipped bool // Stage hash in lazy mode: VerifySignatures was not evaluated
 }
+
+// c12eth1 is the execution client handed to VerifySignatures: nil (offline, as create cluster / combine run) for every
+// ordinary fixture, the accept-every-contract-signature stub of zz_verif_c12sizes_test.go while a Safe fixture is judged.
+// c12lazySig: VerifySignatures is only evaluated when VerifyHashes passed (sizes fixtures and the dense walk).
+var (
+	c12eth1    eth1wrap.EthClientRunner
+	c12lazySig bool
+)
 
 func c12safe(f func() error) (err error, panicked bool) {
 	defer func() {
@@ -718,7 +747,10 @@ func c12load(doc string, b []byte) (canon string, decodeErr, hashErr, sigErr err
 		}
 		canon = c12canon(l)
 		hashErr, _ = c12safe(l.VerifyHashes)
-		sigErr, sigPanic = c12safe(func() error { return l.VerifySignatures(nil) })
+		if hashErr != nil && c12lazySig {
+			return canon, nil, hashErr, nil, false
+		}
+		sigErr, sigPanic = c12safe(func() error { return l.VerifySignatures(c12eth1) })
 		return canon, nil, hashErr, sigErr, sigPanic
 	}
 	var d Definition
@@ -727,7 +759,10 @@ func c12load(doc string, b []byte) (canon string, decodeErr, hashErr, sigErr err
 	}
 	canon = c12canon(d)
 	hashErr, _ = c12safe(d.VerifyHashes)
-	sigErr, sigPanic = c12safe(func() error { return d.VerifySignatures(nil) })
+	if hashErr != nil && c12lazySig {
+		return canon, nil, hashErr, nil, false
+	}
+	sigErr, sigPanic = c12safe(func() error { return d.VerifySignatures(c12eth1) })
 	return canon, nil, hashErr, sigErr, sigPanic
 }
 
@@ -739,7 +774,7 @@ func c12judge(doc string, origCanon string, mut []byte) c12res {
 	case canon == origCanon:
 		return c12res{Stage: "same"}
 	case herr != nil:
-		return c12res{Stage: "hash", Detail: herr.Error(), SigToo: serr != nil}
+		return c12res{Stage: "hash", Detail: herr.Error(), SigToo: serr != nil, SigSkipped: c12lazySig}
 	case spanic:
 		return c12res{Stage: "panic", Detail: serr.Error()}
 	case serr != nil:
@@ -775,7 +810,7 @@ func (x *c12bRun) fixture(id c12bFixID) *c12bFix {
 		// The in-memory lock must itself be valid, otherwise nothing can be concluded from it (whether the
 		// *file* encoded from it still verifies is part of the round-trip check, not assumed here).
 		herr, _ := c12safe(f.lock.VerifyHashes)
-		serr, _ := c12safe(func() error { return f.lock.VerifySignatures(nil) })
+		serr, _ := c12safe(func() error { return f.lock.VerifySignatures(c12szEth1For(id)) })
 		if herr != nil || serr != nil {
 			err = fmt.Errorf("generated lock does not verify: hash=%v sig=%v", herr, serr)
 		}
@@ -822,7 +857,9 @@ func (x *c12bRun) tamper(f *c12bFix, doc string, m c12mutID, origCanon string) {
 	case "decode":
 		r.Count("rejected_by_decode", 1)
 	case "hash":
-		if res.SigToo {
+		if res.SigSkipped {
+			r.Count("rejected_by_hash_signatures_not_evaluated", 1)
+		} else if res.SigToo {
 			r.Count("rejected_by_hash_and_signature", 1)
 		} else {
 			r.Count("rejected_by_hash_only", 1)
@@ -855,7 +892,7 @@ func (x *c12bRun) tamper(f *c12bFix, doc string, m c12mutID, origCanon string) {
 			return
 		}
 	}
-	sig := fmt.Sprintf("part=b kind=tamper-accepted doc=%s version=%s variant=%s field=%s mut=%s", doc, f.id.Version, f.id.Variant, m.gpath(), strings.SplitN(m.Kind, "=", 2)[0])
+	sig := fmt.Sprintf("part=b kind=tamper-accepted doc=%s version=%s variant=%s field=%s mut=%s", doc, f.id.Version, f.id.Variant+c12szSigSuffix(f.id), m.gpath(), strings.SplitN(strings.SplitN(m.Kind, "=", 2)[0], "@", 2)[0])
 	desc := fmt.Sprintf("%s: altering %s of a valid %s %s (%s) is not detected: the file decodes to different content, VerifyHashes and VerifySignatures both pass",
 		key, m.path(), f.id.Version, doc, m.Kind)
 	r.Violation(sig, desc, c12bCase{Part: "b", Fixture: f.id, Scenario: "tamper", Doc: doc, Path: m.path(), Kind: m.Kind})
@@ -1147,6 +1184,8 @@ func TestVerifC12b(t *testing.T) {
 		if err := r.ReplayCase(&c); err != nil || c.Part != "b" {
 			return // a part (a) replay file: nothing to do in this binary
 		}
+		restore := c12szMode(c.Fixture, c.Scenario == "dense")
+		defer restore()
 		f := x.fixture(c.Fixture)
 		if f == nil {
 			return
@@ -1210,6 +1249,13 @@ func TestVerifC12b(t *testing.T) {
 				}
 				x.tamper(f, doc, m, origCanon)
 			}
+			// dense walk (every byte / character of every string leaf): quick tier on the signed goerli fixture of every
+			// version and on the example files, thorough tier on every fixture
+			if c12szDenseOnBase(id) {
+				if x.denseBase(f, doc, origCanon) {
+					return
+				}
+			}
 		}
 		if f.hasMem {
 			for _, rc := range x.resignCases(f) {
@@ -1224,4 +1270,5 @@ func TestVerifC12b(t *testing.T) {
 		}
 		delete(x.fixes, id)
 	}
+	x.sizesPart()
 }
